@@ -517,6 +517,11 @@ func newWorld(tag string) *world {
 
 func main() {
 	f := mbt.ParseFlags()
+	if f.Mode == "signers" {
+		signersMode(f)
+		mbt.Flush()
+		return
+	}
 	fh, err := os.Open(f.In)
 	if err != nil {
 		mbt.Die("%v", err)
